@@ -240,6 +240,36 @@ func runC19(c *ctx) {
 	c.rep.Cases += sweep
 	c.rep.Buckets["sweep/fields-vs-calendar-oracle"] += sweep
 	c.rep.Exhaustive = append(c.rep.Exhaustive, fmt.Sprintf("%d days between 1000-01-01 and 9999-12-31 (stride %d plus all month and year boundaries): 22 field presentations against the day-counting oracle, default-picture inverse law on every third", sweep, stride))
+	// 1b. the ends of the span: an instant of the year 1000 or 9999 (UTC) whose local year, in the given offset, is 999 or
+	//     10000.  The statement quantifies over "every instant from year 1000 through year 9999 and every offset"; the text
+	//     $fromMillis renders then has a three- or five-digit year, which $toMillis cannot read back (time.Parse's year
+	//     element is four digits).  Recorded as a known finding (known_findings.json); everything else at the ends must hold.
+	edgeLaw, _ := jsonata.Compile("$toMillis($fromMillis(ms, (), tz)) = ms")
+	for _, base := range []int64{first * 86400000, (last+1)*86400000 - 1} {
+		for _, dms := range []int64{0, 1, 999, 3599999, 3600000, 43200000, 50399999, 50400000, 86399999} {
+			for offMin := -14 * 60; offMin <= 14*60; offMin += 105 {
+				ms := base
+				if base == first*86400000 {
+					ms += dms
+				} else {
+					ms -= dms
+				}
+				localDay := floorDiv(ms+int64(offMin)*60000, 86400000)
+				outside := localDay < first || localDay > last
+				in := map[string]interface{}{"ms": float64(ms), "tz": c19Tz(offMin)}
+				res, err := edgeLaw.Eval(in)
+				c.note("edge\x00"+valueSexp(in), "span-edges", true)
+				if err == nil && res == true {
+					continue
+				}
+				kind := "law"
+				if outside {
+					kind = "inverse-law-local-year-outside-span"
+				}
+				c.disagree(Disagreement{Kind: kind, Prog: "$toMillis($fromMillis(ms, (), tz)) = ms", Input: in, InputS: valueSexp(in), Go: fmt.Sprint(res, err), Model: "true"})
+			}
+		}
+	}
 	// 2. model correspondence on sampled instants
 	n := c.scale(6000, 60000)
 	pics := []string{"", "[Y0001]-[M01]-[D01]", "[Y0001]-[M01]-[D01]T[H01]:[m01]:[s01]", "[Y0001]-[M01]-[D01]T[H01]:[m01]:[s01].[f001]", "[Y0001]-[M01]-[D01]T[H01]:[m01]:[s01].[f001][Z01:01]",
